@@ -216,6 +216,46 @@ def _layout_ob(c: ClassInfo, inst: str, rv: TensorV, loc: str) -> Ob:
     return ok("R4l", c.qualname, linst, fmt_all(rv.lay), loc)
 
 
+def _inner_layout_obs(c: ClassInfo, inst: str, rv: TensorV, pairings: list, ar: Dim, loc: str) -> list[Ob]:
+    """element-order contracts of inner layers (arity > 1):
+    * the unit axis of a layer that combines the units of its inputs lists input 0 major
+      ([Ki|H=0, Ki|H=1, ..]) -- the order the Tucker / sampling / multiplication code assume;
+    * a weight whose columns range over (input, unit) is contracted arity-major ([H, Ki]) -- the order
+      TorchMixingWeightParameter produces and TorchSumLayer.sample flattens."""
+    out: list[Ob] = []
+    n = ar.as_int()
+    if n is None or n < 2:
+        return out
+    linst = inst.replace("forward", "layout")
+    if rv.lay is not None and len(rv.lay) == 3 and rv.lay[2] is not None and len(rv.lay[2]) > 1:
+        tags = []
+        for l, _ in rv.lay[2]:
+            t = [x for x in l.split("|")[1:] if x.startswith("H=")]
+            tags.append(int(t[0][2:]) if t else None)
+        if None not in tags:
+            if tags == sorted(tags):
+                out.append(ok("R4l", c.qualname, linst + ":units", f"output units laid out {fmt_all([rv.lay[2]])[1:-1]} (input 0 major)", loc))
+            else:
+                out.append(viol("R4l", c.qualname, linst + ":units", f"output units laid out {fmt_all([rv.lay[2]])[1:-1]}: a later input is major, the Kronecker order every consumer assumes is input 0 major", loc))
+    for _letter, cands in pairings:
+        known = [x for x in cands if x is not None]
+        if len(known) != 2:
+            continue
+        a, b = known
+        pa = len(a) == 1 and a[0][0].startswith("<")
+        pb = len(b) == 1 and b[0][0].startswith("<")
+        if pa == pb:
+            continue
+        data = b if pa else a
+        labels = [l.split("|")[0] for l, _ in data]
+        if "H" in labels and len(labels) == 2:
+            if labels[0] == "H":
+                out.append(ok("R4l", c.qualname, linst + ":weight-columns", f"weight columns contracted against {fmt_all([data])[1:-1]} (arity major)", loc))
+            else:
+                out.append(viol("R4l", c.qualname, linst + ":weight-columns", f"weight columns contracted against {fmt_all([data])[1:-1]}: the mixing-weight parameter and sampling lay the columns out arity major ([H, Ki])", loc))
+    return out
+
+
 def _dedup(obs: list[Ob]) -> list[Ob]:
     """one obligation per (rule, construct, instance): a violation wins, then unresolved, then ok"""
     best: dict[str, Ob] = {}
@@ -377,8 +417,12 @@ def _one_layer_method(ctx: Ctx, c: ClassInfo, obj: ObjV, st0: State, meth: str, 
         return [unres(rule, c.qualname, f"{meth}[{tag}]", "layer attributes not resolved after the constructor", fi.loc)]
     ko_d, ki_d, ar_d, f_d = (st.norm(x.d) for x in (ko, ki, ar, nf))  # type: ignore[union-attr]
     inst = f"{meth}[{tag}]" if tag else meth
+    it.pairings = []  # type: ignore[attr-defined]
     if kind == "inner":
-        args: list[V] = [TensorV((f_d, ar_d, B, ki_d))]
+        x_in = fresh_tensor((f_d, ar_d, B, ki_d))
+        if x_in.lay is not None and ar_d.as_int() is not None and ar_d.as_int() > 1:
+            x_in = TensorV(x_in.shape, x_in.dtype, (x_in.lay[0], (("H", ar_d),), x_in.lay[2], x_in.lay[3]))
+        args: list[V] = [x_in]
         want: Any = (f_d, B, ko_d)
     elif kind == "input":
         args = [TensorV((f_d, B, ki_d))]  # num_input_units == number of variables of an input layer
@@ -393,7 +437,10 @@ def _one_layer_method(ctx: Ctx, c: ClassInfo, obj: ObjV, st0: State, meth: str, 
         args = [IntV(N)]
         want = (f_d, ko_d, N)
     else:  # sample_inner
-        args = [TensorV((f_d, ar_d, ki_d, N, D))]
+        x_in = fresh_tensor((f_d, ar_d, ki_d, N, D))
+        if x_in.lay is not None and ar_d.as_int() is not None and ar_d.as_int() > 1:
+            x_in = TensorV(x_in.shape, x_in.dtype, (x_in.lay[0], (("H", ar_d),)) + tuple(x_in.lay[2:]))
+        args = [x_in]
         want = ("tuple", (f_d, ko_d, N, D))
     out: list[Ob] = []
     try:
@@ -409,6 +456,16 @@ def _one_layer_method(ctx: Ctx, c: ClassInfo, obj: ObjV, st0: State, meth: str, 
                     got = s2.norm_shape(rv.items[0].shape)
                     if got == w:
                         out.append(ok(rule, c.qualname, inst, f"{fmt_shape(got)}{cond}", fi.loc))
+                        t0 = rv.items[0]
+                        if t0.lay is not None and t0.lay[1] is not None and len(t0.lay[1]) > 1:
+                            tags = [[int(x[2:]) for x in l.split("|")[1:] if x.startswith("H=")] for l, _ in t0.lay[1]]
+                            if all(len(t) == 1 for t in tags):
+                                flat = [t[0] for t in tags]
+                                linst = inst.replace("sample", "layout-sample") + ":units"
+                                if flat == sorted(flat):
+                                    out.append(ok("R4l", c.qualname, linst, "sampled units laid out input 0 major, as forward", fi.loc))
+                                else:
+                                    out.append(viol("R4l", c.qualname, linst, f"sample() lays the combined units out {fmt_all([t0.lay[1]])[1:-1]}, forward lays them out input 0 major: the mixture index drawn by the next sum layer addresses another component", fi.loc))
                     else:
                         out.append(viol(rule, c.qualname, inst, f"returns samples of shape {fmt_shape(got)}, the sampling chain expects (F, Ko, N, D) = {fmt_shape(w)}{cond}", fi.loc))
                 else:
@@ -421,6 +478,8 @@ def _one_layer_method(ctx: Ctx, c: ClassInfo, obj: ObjV, st0: State, meth: str, 
             got = s2.norm_shape(rv.shape)
             if got == w:
                 out.append(ok(rule, c.qualname, inst, f"{fmt_shape(got)}{cond}", fi.loc))
+                if kind == "inner" and meth == "forward":
+                    out.extend(_inner_layout_obs(c, inst, rv, it.pairings, ar_d, fi.loc))  # type: ignore[attr-defined]
             else:
                 out.append(viol(rule, c.qualname, inst, f"returns {fmt_shape(got)}, contract {fmt_shape(w)}{cond}", fi.loc))
     except ShapeError as e:
